@@ -144,3 +144,43 @@ Section CloseStart.
              end
          end.
 End CloseStart.
+
+(** * seeded change C04-8: [Simulator.clear_results] no longer forgets a recorded failure.
+
+    A refactoring moved the "no results" state ([variables], [dependent], [simulation_parameters], [_time_shift] := None)
+    of [__init__] and [clear_results] into a helper [_drop_results()]; the line [self._errors = []] stayed behind in
+    [__init__] only.  [clear_results_keeps_errors] is that shape; [run_op_ck] / [run_ck] / [trace_ck] are the history
+    runners of Protocol.v with it in the place of [clear_results].  (FailureProofs.v: once a run has failed, NO history
+    ever produces a result again.) *)
+Section ClearKeeps.
+  Variables Y P U O : Type.
+  Variable flow : P -> Q -> Y -> Q -> Y.
+  Variable solve_ok : P -> Q -> Y -> Q -> bool.
+  Variable conv : Y -> Y -> bool.
+  Variable pupd : P -> U -> P.
+  Variable yovr : Y -> O -> Y.
+  Variable fx : sim_facts.
+
+  Notation sim := (sim Y P).
+
+  Definition clear_results_keeps_errors (s : sim) : sim :=
+    mkSim (s_y0 s) None None None (s_errs s) (integ_init Y (s_y0 s)) (s_mp s).
+
+  Definition run_op_ck (s : sim) (o : op U O) : sim * outcome :=
+    match o with
+    | OClear => (clear_results_keeps_errors s, Done)
+    | _ => run_op Y P U O flow solve_ok conv pupd yovr fx s o
+    end.
+
+  Fixpoint run_ck (s : sim) (ops : list (op U O)) : sim :=
+    match ops with
+    | [] => s
+    | o :: rest => run_ck (fst (run_op_ck s o)) rest
+    end.
+
+  Fixpoint trace_ck (s : sim) (ops : list (op U O)) : list (sim * outcome) :=
+    match ops with
+    | [] => []
+    | o :: rest => let r := run_op_ck s o in r :: trace_ck (fst r) rest
+    end.
+End ClearKeeps.
